@@ -37,7 +37,8 @@ def _v(rec, clause, sig, *a, **k):
 
 def units(tier, seed):
     out = [dict(kind="lat2", size=s, part=p, tier=tier, seed=seed) for s in ((3, 4) if tier == "quick" else (3, 4, 5)) for p in range(3)]
-    out += [dict(kind="fixed", tier=tier, seed=seed), dict(kind="gamut", tier=tier, seed=seed), dict(kind="estimator", tier=tier, seed=seed)]
+    out += [dict(kind="fixed", which=w, tier=tier, seed=seed) for w in range(23)]
+    out += [dict(kind="gamut", tier=tier, seed=seed), dict(kind="estimator", tier=tier, seed=seed)]
     for k in ((2, 3) if tier == "quick" else (2, 3, 4)):
         out.append(dict(kind="js", k=k, tier=tier, seed=seed))
     return out
@@ -213,7 +214,7 @@ def run_unit(unit, rec):
     import dreye
 
     kind, tier, seed = unit["kind"], unit["tier"], unit["seed"]
-    rec.state((kind, unit.get("size"), unit.get("k"), unit.get("part")))
+    rec.state((kind, unit.get("size"), unit.get("k"), unit.get("part"), unit.get("which")))
     if kind == "lat2":
         base = [np.array(p, dtype=float) for p in itertools.product(range(3), repeat=2)]
         combos = list(itertools.combinations(range(9), unit["size"]))[unit["part"] :: 3]
@@ -233,10 +234,18 @@ def run_unit(unit, rec):
         clouds.append(("flat-in-4d", np.array([[0.0, 0, 0, 0], [1, 0, 0, 1], [0, 2, 0, 0], [1, 2, 0, 1], [0, 0, 1, 0], [1, 0, 1, 1]])))
         clouds.append(("simplex-3d+interior", np.vstack([np.zeros(3), np.eye(3) * 2, [[0.3, 0.3, 0.3]]])))
         clouds.append(("single-point", np.array([[1.0, 2.0], [1.0, 2.0]])))
-        for name, P in clouds:
-            _check_cloud(rec, dreye, name, P, name.split("-")[0], seed)
+        # flat AND elongated (aspect ratios 16:1 .. 4000:1, rational rotation + shift); thin but full-dimensional as well
+        R3 = np.array([[0.6, -0.8, 0.0], [0.8, 0.6, 0.0], [0.0, 0.0, 1.0]])
+        for asp in (16.0, 128.0, 1024.0, 4096.0):
+            Yp = np.array([[0.0, 0.0], [asp, 0.0], [asp, 0.5], [0.0, 0.5], [asp / 2, 0.25], [asp / 4, 0.125]])
+            clouds.append(("flatthin-%d-in-3d" % asp, np.hstack([Yp, np.full((6, 1), 2.0)]) @ R3.T + 1.5))
+            clouds.append(("flatthin-%d-in-4d" % asp, np.hstack([Yp, np.full((6, 1), 2.0), Yp[:, :1] * 0.5]) + 0.25))
+            clouds.append(("thin-%d-2d" % asp, Yp @ R3[:2, :2].T + 0.5))
+        assert len(clouds) == 22
+        for name, P in (clouds[unit["which"] : unit["which"] + 1]):
+            _check_cloud(rec, dreye, name, P, name.split("-")[0], seed, motions=("thin" not in name or name.endswith("16-in-3d") or name.endswith("1024-in-3d")))
         # zonotopes: mean width closed form sum ||g_k|| Gamma(d/2) / (sqrt(pi) Gamma((d+1)/2))
-        for (m, n) in ((2, 3), (3, 3), (3, 4), (4, 5)):
+        for (m, n) in (((2, 3), (3, 3), (3, 4), (4, 5)) if unit["which"] == 22 else ()):
             G = AL.A_palette(m, n, seeded=False)[-1][1]
             r = 1.0 + np.arange(n) / 4.0
             V = AL.lattice(np.zeros(n), r, (0.0, 1.0)) @ G.T
